@@ -27,13 +27,13 @@ import gen_fault
 LEVEL = "fault_enumeration"
 RULE = ("for each scenario of the fixed catalogue: one clean run counts the N allocation attempts "
         "(coap_malloc_type + coap_realloc_type, ld --wrap), then N runs fail exactly the k-th "
-        "attempt, k = 1..N (thorough: also every pair k1 < k2 <= N(k1), and the singles again under "
-        "ASan); evaluations = runs of a scenario with a fault pattern + PDU-layer tie cases; a run "
+        "attempt, k = 1..N (also every pair k1 < k2 <= N(k1): quick for the scenarios with N <= 100, "
+        "thorough for all; thorough runs the singles again under ASan); evaluations = runs of a scenario with a fault pattern + PDU-layer tie cases; a run "
         "is non-trivial when the fault was actually injected (the k-th attempt was reached) and "
         "the scenario went on to its tear-down; distinct = distinct (variant, scenario, k1, k2)")
 
 WRAPS = ["coap_ticks", "coap_socket_send", "coap_socket_recv",
-         "coap_malloc_type", "coap_realloc_type", "coap_free_type", "coap_io_process_lkd"]
+         "coap_malloc_type", "coap_realloc_type", "coap_free_type", "coap_io_process_lkd", "malloc"]
 
 MEMTAG = ["STRING", "ATTRIBUTE_NAME", "ATTRIBUTE_VALUE", "PACKET", "NODE", "CONTEXT", "ENDPOINT",
           "PDU", "PDU_BUF", "RESOURCE", "RESOURCEATTR", "DTLS_SESSION", "SESSION", "OPTLIST",
@@ -42,7 +42,7 @@ MEMTAG = ["STRING", "ATTRIBUTE_NAME", "ATTRIBUTE_VALUE", "PACKET", "NODE", "CONT
           "OSCORE_REC", "OSCORE_EX", "OSCORE_EP", "OSCORE_BUF", "MEM_TAG_LAST"]
 
 HARNESS_FUNCS = re.compile(r"^(sc_|child_main|main$|world_|mk|send_tracked|simple_exchange|canary|"
-                           r"finish_with|prologue|pump|vn_|run_fa|h_|on_|dump_|\?\?|_start|__libc)")
+                           r"finish_with|prologue|pump|vn_|run_fa|h_|on_|dump_|route_lkd|one_request|__wrap_|\?\?|_start|__libc)")
 
 
 RECEIVE_DROP = re.compile(r"^(coap_pdu_init<coap_handle_dgram|coap_pdu_resize<coap_pdu_parse<coap_handle_dgram|"
@@ -54,7 +54,7 @@ def parse_result(line):
     d = {"raw": line}
     m = re.match(r"(OK|HANG|CRASH sig=\d+|EXIT code=-?\d+)", line)
     d["status"] = m.group(1) if m else "GARBLED"
-    for key in ("site", "n", "inj", "canary", "guard", "poison", "live", "tm", "sends", "res",
+    for key in ("site", "n", "inj", "canary", "guard", "poison", "live", "tm", "un", "leaked", "sends", "res",
                 "trace", "sites"):
         m = re.search(r" %s=(\S+)" % key, line)
         d[key] = m.group(1) if m else "?"
@@ -145,7 +145,7 @@ def failure_indicated(res, res0):
     return False
 
 
-def judge(d, clean, verdict, own=None):
+def judge(d, clean, verdict, own=None, rs=None):
     """-> list of (kind, detail) for one faulted run"""
     bad = []
     st = d["status"]
@@ -153,7 +153,16 @@ def judge(d, clean, verdict, own=None):
         bad.append(("crash" if st.startswith("CRASH") else st.split()[0].lower(), st))
         return bad
     if verdict != "Clean":
-        bad.append((verdict.split()[0].lower(), verdict))
+        what = verdict
+        if verdict.startswith("Leak") and d.get("leaked", "?") not in ("?", "-"):
+            what += " (" + ", ".join("block %s: %s, %s bytes, allocated in %s" % (
+                x.split(":")[0],
+                MEMTAG[int(x.split(":")[1])] if int(x.split(":")[1]) < len(MEMTAG) else x.split(":")[1],
+                x.split(":")[2],
+                ("<".join(n for n in rs.resolve([a for a in x.split(":")[3].split("/") if a.startswith("0x")])
+                          if n != "??") if rs and len(x.split(":")) > 3 else "?"))
+                for x in d["leaked"].split(",")) + ")"
+        bad.append((verdict.split()[0].lower(), what))
     if d["guard"] not in ("0",) or d["poison"] not in ("0",):
         bad.append(("heap-corruption", "guard=%s poison=%s" % (d["guard"], d["poison"])))
     if d["canary"] == "0":
@@ -210,6 +219,8 @@ def ownerships(model, ds):
 def site_matches(site, chain):
     """a known site (function names innermost first) matches when it is a contiguous part of
     the chain of the failed allocation"""
+    if site == "*":
+        return True
     a, b = site.split("<"), chain.split("<")
     return any(b[i:i + len(a)] == a for i in range(len(b) - len(a) + 1))
 
@@ -272,7 +283,7 @@ def enumerate_variant(run, model, exe, variant, scen_list, pairs, stats, env=Non
         outs = run_chunks(exe, lines, env=env)
         ds = [parse_result(o) for o in outs]
         # --- pairs: k2 ranges over the attempts of the run that failed k1
-        if pairs:
+        if pairs is True or (pairs and N <= pairs):
             plines = []
             for (k1, kk2), d in zip(list(cases), ds):
                 if kk2 or k1 > N:
@@ -320,7 +331,7 @@ def enumerate_variant(run, model, exe, variant, scen_list, pairs, stats, env=Non
                     run.violation("allocation table of the shim (live=%d) disagrees with the verdict %s"
                                   % (live, v), "case: %s\n%s\n" % (ln, d["raw"][:4000]),
                                   tag="tie_%s_%s_%d_%d" % (variant, sc, k1, k2), no_input=True)
-            bad = judge(d, c1, v, ow)
+            bad = judge(d, c1, v, ow, rs)
             if d["sends"] not in ("-", "?"):
                 run.hist("coap_send_outcomes", ",".join(x.split(":")[1] for x in d["sends"].split(",")))
             if not bad:
@@ -367,7 +378,8 @@ def enumerate_variant(run, model, exe, variant, scen_list, pairs, stats, env=Non
                 run.hist("failure_kind", kind)
             run.hist("site_type", MEMTAG[last["type"]] if last and last["type"] < len(MEMTAG) else "?")
         info[variant] = {"N": N, "runs": len(cases), "corpus_cases": ncorpus, "exhaustive": True,
-                         "pairs": bool(pairs), "injected": ninj, "failing_runs": nfail}
+                         "pairs": bool(pairs is True or (pairs and N <= pairs)), "injected": ninj,
+                         "failing_runs": nfail}
         run.hist("scenario_runs", sc)
         if len(run.cov["samples"]) < 6:
             j = min(len(lines) - 1, N // 2)
@@ -378,7 +390,46 @@ def enumerate_variant(run, model, exe, variant, scen_list, pairs, stats, env=Non
     return failures
 
 
-def report(run, failures, variant):
+def uthash_enum(run, model, exe, variant, scen_list, stats, env=None):
+    """libcoap's direct malloc() calls (uthash: hash head, bucket array, bucket expansion) do not
+    go through coap_malloc_type; the driver sees them through --wrap=malloc.  Fail the j-th one,
+    j = 1..U of the clean run, judged like every other run."""
+    rs = Resolver(exe)
+    failures = {}
+    for sc in scen_list:
+        out = run_chunks(exe, ["fa %s 0 0" % sc], env=env, jobs=1)
+        c = parse_result(out[0])
+        if c["status"] != "OK" or not c["un"].isdigit():
+            continue
+        U = int(c["un"])
+        lines = ["fa %s 0 0 U%d" % (sc, j) for j in range(1, U + 1)]
+        ds = [parse_result(o) for o in run_chunks(exe, lines, env=env)]
+        vs = verdicts(model, [d["trace"] if d["status"] == "OK" else "-" for d in ds])
+        ows = ownerships(model, ds)
+        nfail = 0
+        for ln, d, v, ow in zip(lines, ds, vs, ows):
+            notices = parse_notice(d["site"])
+            run.count("%s %s" % (variant, ln), bool(notices))
+            bad = judge(d, c, v, ow, rs)
+            if not bad:
+                continue
+            nfail += 1
+            chains = [rs.chain(nt["bt"]) for nt in notices] or ["?"]
+            for kind, detail in bad:
+                key = (sc, kind, "uthash", " & ".join(chains))
+                failures.setdefault(key, []).append(
+                    {"case": ln, "detail": "uthash malloc: " + detail, "status": d["status"], "verdict": v,
+                     "chains": chains, "site": "direct malloc(%s) of libcoap (uthash)" %
+                     (notices[0]["size"] if notices else "?"),
+                     "backtrace": " || ".join(" <- ".join(rs.resolve(nt["bt"])) for nt in notices) or "?",
+                     "res": d["res"][:600], "clean_res": c["res"][:600]})
+                run.hist("failure_kind", "uthash-" + kind)
+        stats.setdefault(sc, {}).setdefault(variant, {})["uthash_mallocs"] = U
+        stats[sc][variant]["uthash_failing_runs"] = nfail
+    return failures
+
+
+def report(run, failures, variant, rerun=None):
     nv = 0
     for (sc, kind, dkey, chain), cs in sorted(failures.items()):
         c = cs[0]
@@ -386,6 +437,8 @@ def report(run, failures, variant):
         if f:
             run.known(f, "%s %s at %s (%d runs, e.g. '%s')" % (sc, kind, chain, len(cs), c["case"]))
             continue
+        if kind == "leak" and rerun is not None:
+            c["detail"] = rerun(c["case"]) or c["detail"]
         nv += 1
         if nv > 12:
             vlib.log("further failing site: %s %s %s (%d runs)" % (sc, kind, chain, len(cs)))
@@ -485,7 +538,7 @@ def replay(run, model, exe, path):
         outs, _ = vlib.run_lines_robust(exe, ["fa %s 0 0" % sc, ln], env=env)
         c, d = parse_result(outs[0]), parse_result(outs[1])
         v = verdicts(model, [d["trace"] if d["status"] == "OK" else "-"])[0]
-        bad = judge(d, c, v, ownerships(model, [d])[0])
+        bad = judge(d, c, v, ownerships(model, [d])[0], rs)
         chains = [rs.chain(nt["bt"]) for nt in parse_notice(d["site"])]
         vlib.log("case   : %s\nstatus : %s\nverdict: %s\nsites  : %s\nresult : %s\nclean  : %s\njudged : %s" %
                  (ln, d["status"], v, " & ".join(chains), d["res"], c["res"], bad or "ok"))
@@ -513,8 +566,8 @@ def main(run):
         "model: Fault/AllocOracle.v (trace oracle), Fault/PduAtomic.v (PDU builder with an "
         "allocation oracle; abstract message from Wire/Build.v)"]
     run.assumptions = [
-        "only allocations made through coap_malloc_type/coap_realloc_type are failed: uthash's "
-        "direct malloc() (hash heads/buckets), GnuTLS and libc are out of scope",
+        "failed are the allocations made through coap_malloc_type/coap_realloc_type and (single "
+        "failures only) libcoap's direct malloc() calls (uthash); GnuTLS and libc are out of scope",
         "single failures (thorough: pairs); not arbitrary failure sets",
         "the scenario catalogue is fixed (harness/h_fault.c); UDP only, no DTLS/TCP/WebSocket/OSCORE"]
     run.prove()
@@ -527,8 +580,23 @@ def main(run):
     scen = out[0].split()
     stats = {}
     thorough = run.tier == "thorough"
-    fails = enumerate_variant(run, model, exe, "base", scen, thorough, stats)
-    nv = report(run, fails, "base")
+    # pairs: thorough = every scenario; quick = the scenarios with at most 100 attempts
+    fails = enumerate_variant(run, model, exe, "base", scen, True if thorough else 100, stats)
+    def rerun_leak(case, exe=exe, env=None):
+        # once more with FA_BT=1: three more frames of the allocating call of every leaked block
+        e = dict(env or {})
+        e["FA_BT"] = "1"
+        outs, _ = vlib.run_lines_robust(exe, [case], env=e)
+        d = parse_result(outs[0])
+        if d["status"] != "OK":
+            return None
+        v = verdicts(model, [d["trace"]])[0]
+        for kind, detail in judge(d, d, v, None, Resolver(exe)):
+            if kind == "leak":
+                return detail
+        return None
+    nv = report(run, fails, "base", rerun_leak)
+    nv += report(run, uthash_enum(run, model, exe, "base", scen, stats), "base")
     if thorough:
         exe_a = vlib.build_driver("h_fault", ["h_fault.c"], "asan", extra=["-no-pie"], wraps=WRAPS)
         fails_a = enumerate_variant(run, model, exe_a, "asan", scen, False, stats, env=ASAN_ENV)
